@@ -67,6 +67,8 @@ def tasks(tier, seed):
         out.append({"fn": "content", "kwargs": {"formats": fl, "bucket": "image"}, "label": "content/image/" + "+".join(fl)})
     for fl in (["fits", "npy"], ["npy", "txt", "fits"]):
         out.append({"fn": "content", "kwargs": {"formats": fl, "bucket": "pixel"}, "label": "content/pixel/" + "+".join(fl)})
+    for how in ("clusters", "array", "both"):
+        out.append({"fn": "outputs_witness", "kwargs": {"cases": [[how, 1], [how, 2]] + ([[how, 4]] if tier == "thorough" else [])}, "label": f"witness/outputs/{how}", "kind": "direct"})
     return out
 
 
@@ -464,8 +466,77 @@ def _replay_content(kwargs, model):
         shutil.rmtree(tmp, ignore_errors=True)
 
 
+def _run_with_outputs(case):
+    """Whole exposure through run_mode with outputs configured: every reported lossless file holds exactly the bucket of the result.
+    The charge bucket is filled through the particle interface (clusters) and / or as an array, the other buckets as arrays."""
+    import shutil
+
+    import vxprobes
+    from astropy.io import fits
+
+    import pyxel
+    from pyxel.exposure import Exposure, Readout
+    from pyxel.outputs import ExposureOutputs
+    from pyxel.pipelines import DetectionPipeline, ModelFunction
+
+    from .common import make_ccd
+
+    how, nsteps = case
+
+    def hook(d, tag, kw, rec):
+        i = d.pipeline_count
+        z = np.zeros(2)
+        if how in ("clusters", "both"):
+            d.charge.add_charge(particle_type="e", particles_per_cluster=np.array([10.0 + i, 20.0 + 2 * i]), init_energy=z, init_ver_position=np.array([5.0, 15.0]),
+                                init_hor_position=np.array([5.0, 25.0]), init_z_position=z, init_ver_velocity=z, init_hor_velocity=z, init_z_velocity=z)
+        if how in ("array", "both"):
+            d.charge.add_charge_array(np.arange(6.0).reshape(2, 3) + i)
+        d.pixel.array = d.pixel.array + np.arange(6.0).reshape(2, 3) * (i + 1)
+        d.signal.array = np.full((2, 3), 0.25 * (i + 1))
+        d.image.array = (np.arange(6).reshape(2, 3) + 100 * i).astype(np.uint16)
+        d.photon.array = np.full((2, 3), 7.0 + i)
+
+    tmp = tempfile.mkdtemp(prefix="vx_c19_")
+    vxprobes.reset(hook)
+    try:
+        out = ExposureOutputs(output_folder=tmp, save_data_to_file=[{"detector.charge.array": ["npy", "fits"]}, {"detector.pixel.array": ["npy"]}, {"detector.image.array": ["fits", "npy"]},
+                                                                    {"detector.signal.array": ["npy"]}, {"detector.photon.array": ["fits"]}])
+        pipe = DetectionPipeline(charge_generation=[ModelFunction(func="vxprobes.probe", name="gen", arguments={"tag": "gen"})])
+        dt = pyxel.run_mode(mode=Exposure(readout=Readout(times=[float(i + 1) for i in range(nsteps)]), outputs=out), detector=make_ccd(2, 3), pipeline=pipe, with_inherited_coords=True)
+        folder = pathlib.Path(out.current_output_folder)
+        bad = {}
+        for f in sorted(folder.iterdir()):
+            if f.suffix not in (".npy", ".fits"):
+                continue
+            bucket = f.stem.split("_")[1]
+            back = np.load(f) if f.suffix == ".npy" else fits.getdata(f)
+            want = np.asarray(dt[f"/bucket/{bucket}"])[-1]
+            if back.shape != want.shape or not np.array_equal(np.asarray(back, dtype=float), np.asarray(want, dtype=float)):
+                bad[f.name] = {"file_holds": np.asarray(back).tolist(), "result_bucket": want.tolist()}
+        n_files = len([f for f in folder.iterdir() if f.suffix in (".npy", ".fits")])
+        if n_files != 7:
+            bad["files"] = sorted(f.name for f in folder.iterdir())
+        return bad
+    finally:
+        vxprobes.reset(None)
+        shutil.rmtree(tmp, ignore_errors=True)
+
+
+def outputs_witness(tier, seed, cases):
+    """End-to-end witness runs (real writers, real files): the symbolic content obligations above stop at what is handed to the writers."""
+    obligations = []
+    for case in cases:
+        bad = _run_with_outputs(tuple(case))
+        obligations.append({"id": f"C19/witness/exposure_files_equal_buckets/{case[0]},steps={case[1]}", "verdict": "sat" if bad else "unsat", "info": {"differences": str(bad)[:600]},
+                            "model": {"how": case[0], "steps": case[1]}, "observed": {}})
+    return {"obligations": obligations, "paths": len(cases), "reached": {o["id"]: 1 for o in obligations}}
+
+
 def replay(oid, kwargs, model, data):
     """Real file system in a scratch directory."""
+    if data["fn"] == "outputs_witness":
+        bad = _run_with_outputs((model["how"], int(model["steps"])))
+        return bool(bad), {"differences": bad}
     if data["fn"] == "content":
         return _replay_content(kwargs, model)
     if data["fn"] == "save_files":
